@@ -303,14 +303,14 @@ pub fn c20_eq_ord_hash_adjacency_list_n3() {
     eq_ord_hash::<AdjacencyList, 3>();
 }
 
-// @verif prop=C20 tier=quick fl=f1 role=eq-ord-hash/adjacency-map t=1500 mem=14
+// @verif prop=C20 tier=quick fl=f1 feat=map4 role=eq-ord-hash/adjacency-map t=1500 mem=14
 #[cfg_attr(kani, kani::proof)]
 #[cfg_attr(kani, kani::unwind(10))]
 pub fn c20_eq_ord_hash_adjacency_map_n3() {
     eq_ord_hash::<AdjacencyMap, 3>();
 }
 
-// @verif prop=C20 tier=quick fl=f2 role=eq-ord-hash/weighted t=1500 mem=14
+// @verif prop=C20 tier=quick fl=f2 feat=map4 role=eq-ord-hash/weighted t=1500 mem=14
 #[cfg_attr(kani, kani::proof)]
 #[cfg_attr(kani, kani::unwind(10))]
 pub fn c20_weighted_n3() {
@@ -339,7 +339,7 @@ pub fn c20_different_order_adjacency_list_n2_n3() {
     different_order::<AdjacencyList, 2, 3>();
 }
 
-// @verif prop=C20 tier=quick fl=f1 role=different-order/adjacency-map t=1200 mem=12
+// @verif prop=C20 tier=quick fl=f1 feat=map4 role=different-order/adjacency-map t=1200 mem=12
 #[cfg_attr(kani, kani::proof)]
 #[cfg_attr(kani, kani::unwind(10))]
 pub fn c20_different_order_adjacency_map_n2_n3() {
@@ -360,7 +360,7 @@ pub fn c20_clone_adjacency_list_n3() {
     clone_independent::<AdjacencyList, 3>();
 }
 
-// @verif prop=C20 tier=thorough fl=f1 role=clone/adjacency-map t=1800 mem=16
+// @verif prop=C20 tier=thorough fl=f1 feat=map4 role=clone/adjacency-map t=1800 mem=16
 #[cfg_attr(kani, kani::proof)]
 #[cfg_attr(kani, kani::unwind(10))]
 pub fn c20_clone_adjacency_map_n3() {
